@@ -167,7 +167,7 @@ ENUM_DISCR = {"Ordering": {"Less": -1, "Equal": 0, "Greater": 1}}
 def last_seg(path):
     """Type name without module path and generics: std::option::Option<u64> -> Option"""
     p = path.strip()
-    p = re.sub(r"^&(mut )?", "", p).strip()
+    p = re.sub(r"^&\s*('\w+\s+)?(mut )?", "", p).strip()
     k = find_top(p, "<")
     if k > 0:
         p = p[:k]
@@ -316,7 +316,10 @@ class Program:
             if a < 0:
                 return None
             selfty, trait = inner[:a].strip(), inner[a + 4:].strip()
-            if self.is_external(selfty):
+            if re.match(r"^&?\s*[A-Z]\w?$", selfty):
+                return None        # a type parameter: dispatched on the run-time receiver by the engine
+            if self.is_external(selfty) and (self.is_external(trait) or "::" not in trait and trait.split("<")[0] in
+                                             ("Clone", "PartialEq", "PartialOrd", "Ord", "Eq", "Hash", "Debug", "Default", "From", "Into", "Iterator", "IntoIterator", "Deref", "DerefMut", "Try", "FromResidual", "Display", "ToString", "AsRef", "Borrow", "Drop", "TryFrom", "TryInto", "Fn", "FnMut", "FnOnce", "Index", "Add", "Sub", "Mul", "Div", "Rem", "Neg", "Not", "Extend", "FromIterator", "ToOwned", "Pow", "Integer", "Signed", "ToPrimitive", "Zero", "One", "Sum", "DoubleEndedIterator", "ExactSizeIterator", "Read", "Write", "Seek", "BufRead", "Error", "FromStr")):
                 return None
             cands = []
             for d in self.by_method.get(meth, []):
@@ -326,6 +329,11 @@ class Program:
                 if st == last_seg(selfty) and last_seg(tr) == last_seg(trait):
                     # prefer exact generic-arg match of the trait, and & vs non-& self
                     score = 0
+                    # same-named traits of different crates (cbor_event::Serialize vs serde::Serialize)
+                    if ("serde" in tr) != ("serde" in trait):
+                        continue
+                    if ("cbor_event" in trait) and ("serde" in d or "_::_serde" in d):
+                        continue
                     if norm_ty(tr) == norm_ty(trait):
                         score += 4
                     elif re.match(r"^\w+<[A-Z]\w?>$", norm_ty(tr)):
@@ -343,6 +351,10 @@ class Program:
                     return None
                 return cands[0][1]
             return None
+        # module::<impl path::Type>::method (inherent impl written in another module)
+        mi = re.match(r"^(?:[\w:]+::)?<impl ([^<>]+(?:<.*>)?)>::(\w+)(?:::<.*>)?$", c)
+        if mi:
+            c = last_seg(mi.group(1)) + "::" + mi.group(2)
         # Type::method or free function path
         c2 = re.sub(r"::<[^>]*>$", "", c)     # trailing turbofish on the method
         if self.is_external(c2):
@@ -677,9 +689,16 @@ class Engine:
         self.depth += 1
         if self.depth > self.max_depth:
             raise Unsupported("call depth > %d at %s" % (self.max_depth, callee))
+        self.__dict__.setdefault("callstack", []).append(callee)
         try:
             return self._call(callee, args)
+        except Unsupported as e:
+            if not getattr(e, "stacked", False):
+                e.stacked = True
+                e.args = (str(e.args[0]) + " | call stack: " + " > ".join(x[-70:] for x in self.callstack[-5:]),)
+            raise
         finally:
+            self.callstack.pop()
             self.depth -= 1
 
     def mk_struct(self, name, **fields):
@@ -711,6 +730,21 @@ class Engine:
             if rx.search(c):
                 return self.uf_call(c, args)
         d = self.P.resolve(c)
+        if d is None and c.startswith("<") and args:
+            # call on a type parameter inside a generic body: dispatch on the run-time type of the receiver
+            k = match_close(c, 0)
+            a_ = find_top(c[1:k], " as ")
+            if a_ > 0 and re.match(r"^&?\s*[A-Z]\w?$", c[1:k][:a_].strip()):
+                rv = args[0]
+                nref = 0
+                while isinstance(rv, VRef):
+                    rv = self.read_ref(rv); nref += 1
+                rt = rv.name if isinstance(rv, VStruct) else (rv.ty if isinstance(rv, (VEnum, VLazy)) else None)
+                if rt:
+                    c2 = "<" + ("&" if c[1:k].strip().startswith("&") else "") + rt + c[1:k][a_:] + c[k:]
+                    d = self.P.resolve(c2)
+                    if d is not None:
+                        c = c2
         if d is not None and d in self.P.fns:
             for rx in self.opaque:
                 if rx.search(c) or rx.search(d):
@@ -906,7 +940,7 @@ class Engine:
             if isinstance(v, VStruct) and v.name in ("Box", "Rc", "Arc"):
                 c, path = self.place_ref(fr, p[1])
                 return c, path + (("field", 0),)
-            raise Unsupported("deref of %r" % (v,))
+            raise Unsupported("deref of %r in %s" % (v, fr.fn.name))
         if k == "field":
             c, path = self.place_ref(fr, p[1], create)
             return c, path + (("field", p[2], p[3]),)
